@@ -11,3 +11,11 @@ claim("C03", "bounded-exhaustive enumeration of payloads x containers x index ki
   "Every payload up to the bound (duplicates, equal digests under different hash functions and codecs, identity, mixed widths) laid out by the independent encoder is indexed through every API and source kind; every alphabet CID is queried and every reported offset is checked against the bytes. Exhaustive within the bound.",
   "Trusted: refcar layout; insertion index treated as digest-only.",
   "DESIGN.md 5/C03")
+claim("C11", "bounded-exhaustive enumeration of record multisets x all load-order permutations x both codecs on the real index code; reference index codec as oracle",
+  "Every record multiset up to the bound over a 14-record alphabet (all width/code/duplicate shapes) is loaded in every order, serialized, strictly decoded by the independent codec, read back and queried with every key; plus Flatten vs GenerateIndex for every put history up to the bound. Exhaustive within the bound.",
+  "Trusted: refcar index codec; values outside the record alphabet not covered.",
+  "DESIGN.md 5/C11")
+claim("C14", "bounded-exhaustive enumeration of archives x all 2^n Next/SkipNext choice strings x source kinds on the real BlockReader",
+  "Every archive up to the bound (CID widths 4..68, section lengths at varint boundaries, v1/v2/padded) is iterated under every Next/SkipNext choice string over every source kind; metadata is compared with the reference layout and the actual bytes; source consumption is probed. Exhaustive within the bound.",
+  "Trusted: refcar layout; the over-read probe cannot wrap a raw bytes.Reader.",
+  "DESIGN.md 5/C14")
